@@ -232,6 +232,10 @@ def run(ctx):
              if st["k"] == "assign" and st["rv"]["k"] == "agg" and (st["rv"].get("name") or "").endswith("Buffer::Heap")]
     witness("TextEncoder|heap-buffer-has-length", len(heaps) >= 2 and all(d.startswith("vec::from_elem(") for _, d in heaps),
             f"the encoder's heap scratch buffer is built from {[d[:60] for _, d in heaps]} instead of `vec![0; N]`: a buffer with capacity but zero length makes encode_from_utf8 report OutputFull without progress, and TextEncoder::encode retries for ever (a hang on long non-ASCII insertions in legacy encodings)", heaps[0][0].loc() if heaps else None)
+    hp = mir.fn("HandlerVec::push")
+    mw = re.search(r"NonZero<u(\d+)>", hp.rec["locals"][0])
+    witness("HandlerVec::push|locator-width", bool(mw) and int(mw.group(1)) >= 32,
+            f"handler locators are {hp.rec['locals'][0]}: the end-tag handler vector gets one entry per open element with end-tag work, so with a locator narrower than 32 bits the 65 536th entry makes push() return None — a debug-assertion panic on 10^5-deep nesting (the handler is silently dropped in release)", hp.loc())
     # ActionError::Internal is turned into an Err, not a panic
     p = mir.fn("Parser::parse")
     aggs = [st["rv"]["name"] for b in p.blocks for st in b["stmts"] if st["k"] == "assign" and st["rv"]["k"] == "agg"]
